@@ -21,6 +21,8 @@ THEOREMS = [
     "TornadoModel.C29.cl_equals_encoded_length",
     "TornadoModel.C29.cl_dropped_when_streaming",
     "TornadoModel.C29.decoded_equals_written",
+    "TornadoModel.C29.run_transparent",
+    "TornadoModel.C29.run_feed_is_writes",
     "TornadoModel.C29.identity_when_not_compressing",
     "TornadoModel.C29.transformFirst_shape",
 ]
@@ -38,17 +40,19 @@ RULE = ("C02-style programs with chunk sizes around MIN_LENGTH=1024, Content-Typ
         "non-trivial = the response was actually compressed and carried data; distinct by canonical JSON")
 EXHAUSTIVE = {"quick": False, "thorough": False}
 CLAUSE_CAVEATS = [
-    "decoded_equals_written is the gzip-writer contract applied to the transform's feed; that the handler's writes are what the transform sees and that the transform's outputs are what the connection frames (HEAD, 304/204, error path, chunking) is decided by the tie with real zlib",
-    'cl_equals_encoded_length covers the finish-in-first-chunk case at transform level',
+    "run_transparent / run_feed_is_writes cover exception-free programs (C02.opClean: no handler-set Content-Length / Transfer-Encoding, body-carrying statuses) on non-HEAD requests without an If-None-Match hit; HEAD, 304/204/1xx, handler-set Content-Length and the error path (send_error re-entering finish) are decided by the tie with real zlib",
+    "run_transparent undoes the coding the transform applied (its `gzipping` flag); that the Content-Encoding header on the wire says gzip exactly then is vary/shape-level in Lean (transformFirst_shape) and checked on the wire by the oracle",
+    "cl_equals_encoded_length is transform level; on the wire, run_transparent gives 'exactly one response, nothing left over' under Content-Length framing (so the declared length is the encoded body length) for clean programs only",
 ]
 CLAUSES = {
     "a client that decodes the body according to Content-Encoding obtains exactly the bytes written":
-        "decoded_equals_written + identity_when_not_compressing (transform level, under the gzip contract); "
-        "tie only: that the chunks fed to the transform are the handler's writes and its outputs are what the connection frames "
-        "(run-level; checked by the oracle with real zlib on every case)",
+        "run_transparent (run level: strict client on the model's wire bytes, then gunzip iff the transform compressed, = the program's "
+        "writes; clean programs, all framings, under the gzip contract) + run_feed_is_writes (transform fed exactly the writes, "
+        "closed once at the end; no contract) + decoded_equals_written / identity_when_not_compressing (transform level); "
+        "tie only: HEAD, body-less statuses, handler Content-Length, error path",
     "compression only for compressible types and only when Accept-Encoding mentions gzip": "compress_only_if + not_compressed_passthrough",
     "Vary always includes Accept-Encoding": "vary_always (every path through transform_first_chunk); tie only: it is called on every first flush incl. error pages",
-    "a Content-Length, when present, equals the encoded body length": "cl_equals_encoded_length + cl_dropped_when_streaming; wire level: C02 framing oracle",
+    "a Content-Length, when present, equals the encoded body length": "cl_equals_encoded_length + cl_dropped_when_streaming (transform level); run_transparent (wire level, clean programs: the strict client finds exactly one response and nothing left over whichever framing is used); otherwise C02 framing oracle",
 }
 PARALLEL = False   # 1-2 ms per case; forking a pool costs more than it saves
 CASE_TIMEOUT = 20
